@@ -6,7 +6,7 @@ pid, var = sys.argv[1], sys.argv[2]
 props = sys.argv[3:] or [pid]
 src = "/tmp/seedout/%s/%s" % (pid, var)
 wt = "/tmp/seed/%s" % pid
-env = dict(os.environ, GOFLAGS="-mod=mod", GOPROXY="off", GOSUMDB="off", GOTOOLCHAIN="local")
+env = dict(os.environ, GOFLAGS="-mod=mod", GOPROXY="off", GOSUMDB="off", GOTOOLCHAIN="local", VERIF_EVIDENCE_DIR="/tmp/seed-evidence", VERIF_REPLAY_DIR="/tmp/seed-replays")
 def sh(cmd, cwd=None):
     r = subprocess.run(cmd, shell=True, cwd=cwd, env=env, stdout=subprocess.PIPE, stderr=subprocess.STDOUT, text=True)
     return r.returncode, r.stdout
